@@ -492,7 +492,19 @@ func main() {
 		runPart("a-shapes", cases)
 	}
 	if want("d") {
-		inputs := irSpace(r.Thorough())
+		// which special shapes do the parsers of this tree emit?
+		reachable := map[string]bool{}
+		var unreachable []string
+		for _, o := range h.p.single(&Case{Part: "d-ir", Entry: "probe", ID: "d/probe", Req: Req{Op: "probe"}}) {
+			if o.St == "ok" && o.N == 1 {
+				reachable[o.Lang] = true
+			} else {
+				unreachable = append(unreachable, fmt.Sprintf("%s (%s %s)", o.Lang, o.St, short(o.Err, 60)))
+			}
+		}
+		sizes["d-ir_special_shapes_reachable_from_documents"] = len(reachable)
+		sizes["d-ir_special_shapes_not_reachable"] = unreachable
+		inputs := irSpace(r.Thorough(), reachable)
 		stages := irStages()
 		var cases []*Case
 		for _, in := range inputs {
